@@ -453,7 +453,7 @@ func extraC02Reader(c *Ctx, r *Report) {
 									if (ex.Index == 0 && bo.Op == token.NEQ) || (ex.Index == 1 && bo.Op == token.EQL) {
 										stopSucc = br.Block().Succs[1]
 									}
-									if len(stopSucc.Instrs) > 0 && !reachAvoiding(stopSucc.Instrs[0], call, nil) {
+									if len(stopSucc.Instrs) > 0 && !reachFlagAware(br.Block(), stopSucc, call) {
 										stops |= 1 << ex.Index
 									}
 								}
